@@ -257,9 +257,9 @@ func (rules Rules) Eval(d *Database, q *Query, p Params) (*Ref, error) {
 		ts := e.TS
 		grid15 := rules.Shortcut15sGrid && shortcut
 		if grid15 {
-			// the shortcut reads 15 s pre-aggregates whose START lies in [floor(wFrom/15s)*15s, floor(wTo/15s)*15s)
+			// the shortcut reads 15 s pre-aggregates whose START lies in [floor(wFrom/15s)*15s, wTo)
 			b15 := floorDiv(ts, 15*sec) * 15 * sec
-			if b15 < floorDiv(wFrom, 15*sec)*15*sec || b15 >= floorDiv(wTo, 15*sec)*15*sec {
+			if b15 < floorDiv(wFrom, 15*sec)*15*sec || b15 >= wTo {
 				continue
 			}
 		} else if ts < wFrom || ts >= wTo {
